@@ -2966,23 +2966,27 @@ class Transport(threading.Thread, ClosingContextManager):
             raise SSHException("Received NEWKEYS outside of a key exchange")
         self._log(DEBUG, "Switch to new keys ...")
         self._activate_inbound()
-        # can also free a bunch of stuff here
-        self.local_kex_init = self.remote_kex_init = None
-        self.K = None
-        self.kex_engine = None
-        if self.server_mode and (self.auth_handler is None):
-            # create auth handler for server mode
-            self.auth_handler = AuthHandler(self)
-        if not self.initial_kex_done:
-            # this was the first key exchange
-            # (also signal to packetizer as it sometimes wants to know this
-            # status as well, eg when seqnos rollover)
-            self.initial_kex_done = self.packetizer._initial_kex_done = True
-        # it's now okay to send data again (if this was a re-key)
-        if not self.packetizer.need_rekey():
-            self.in_kex = False
+        # (under the lock _send_kex_init takes: another thread's
+        # renegotiate_keys() must see this exchange either still in progress
+        # or completely finished, held-back messages included)
         self.clear_to_send_lock.acquire()
         try:
+            # can also free a bunch of stuff here
+            self.local_kex_init = self.remote_kex_init = None
+            self.K = None
+            self.kex_engine = None
+            if self.server_mode and (self.auth_handler is None):
+                # create auth handler for server mode
+                self.auth_handler = AuthHandler(self)
+            if not self.initial_kex_done:
+                # this was the first key exchange
+                # (also signal to packetizer as it sometimes wants to know
+                # this status as well, eg when seqnos rollover)
+                self.initial_kex_done = True
+                self.packetizer._initial_kex_done = True
+            # it's now okay to send data again (if this was a re-key)
+            if not self.packetizer.need_rekey():
+                self.in_kex = False
             # first whatever this thread had to hold back during the exchange
             deferred, self._kex_deferred_messages = (
                 self._kex_deferred_messages,
